@@ -6,7 +6,11 @@ they all run one after the other in the harness's worker process) and call histo
   seq m call_1 .. call_m     call = gammaln x | gamma x | gammaq x a | gammap x a | upper x a | lower x a | invp p a | invq q a | fact n | binom n k
 which the harness runs in ONE process that has called nothing before (forked from a server process started before any library call);
 the output is  m h_1 f_1 .. h_m f_m : the answer h_i inside the history and the answer f_i of a fresh process to the same call.
-The model side is call_run of coq/C06_Model.v (the factorial table is the only state; theorem C06_call_history_independent: h_i = f_i)."""
+The model side is call_run of coq/C06_Model.v (the factorial table is the only state; theorem C06_call_history_independent: h_i = f_i).
+Families of histories: ladders of one argument at a fixed shape, ladders of the shape, the functions interleaved at one shape, requests at SEVERAL
+shapes with short-path calls in between (inverse whose solution underflows, p = 0 / 1, x = 0, subnormal x, a > 100 outside the quadrature window,
+Binomial_Coefficient with k > n), rows of Binomial_Coefficient (many k at one n, k beyond n included, rows interleaved, Pascal neighbours).
+The x range is covered down to its lower end: every binade to the smallest subnormal and the normal/subnormal border, paired with a ladder of small shapes."""
 import math, os, re, subprocess, sys, time, shutil
 if hasattr(sys, "set_int_max_str_digits"): sys.set_int_max_str_digits(0)     # factorials with thousands of digits are written into the S3 files
 from fractions import Fraction
@@ -28,6 +32,8 @@ LEVEL_TEXT = ("Theorems (Coq, all inputs / all histories, about the Gallina mode
               "Pascal's rule, symmetry, 0 for n<k, exit for negative arguments; GammaP+GammaQ = 1, Upper+Lower = Gamma, GammaQ(0,a) = 1, the guards, which method answers where; "
               "on the quadrature branch (a > 100) the answer lies in [0,1]; "
               "in every history of calls to the whole family in one process (the factorial table is the only state the model - like the source - has) each call gets the answer a fresh process gives, and a repeated call the same answer; "
+              "every call except Factorial and Binomial_Coefficient's Factorial branch leaves the process state untouched (Binomial_Coefficient with k > n, n > 170 or a negative argument and the inverses on every path included); "
+              "Inv_GammaP's Halley loop answers 0 at once when its iterate is <= 0 (underflowing initial guess); "
               "GammaPser returns the k-th partial sum of sum_j x^j/(a(a+1)...(a+j)) times exp(-x + a ln x - GammaLn a) at the first k meeting the 2^-52 stopping test; GammaQcf's modified-Lentz state after n iterations is "
               "(A_{n-1}/A_n, Bt_n/Bt_{n-1}, Bt_n/A_n), i.e. the n-th convergent of the continued fraction with a_i = -i(i-a), b_i = x+2i+1-a (index advanced every iteration), as long as no clamp triggers; "
               "the reference identity e^-x sum_{k<=n} x^k/k! = 1 - (1/n!) RInt_0^x t^n e^-t used by the certified samples. "
@@ -185,9 +191,44 @@ def _rand_a(rng):
     return 10 ** rng.uniform(-1, 2)
 
 
+DBL_MIN = 2.2250738585072014e-308      # smallest normal double; below it: subnormals down to DENORM_MIN
+DENORM_MIN = 5e-324
+
+
+def _ulps(rng, v, kmax=1000):
+    """v moved by 1 .. kmax units in the last place (geometric ladder of distances), either side"""
+    k = int(round(10 ** rng.uniform(0, math.log10(kmax)))); d = rng.choice([-math.inf, math.inf])
+    for _ in range(k): v = math.nextafter(v, d)
+    return v
+
+
+def _tiny_x(rng):
+    """the lower end of the x range [0, ..]: the whole ladder of binades below 1e-12 down to the smallest subnormal,
+    the normal/subnormal border at 1 .. 1000 ulp and at relative distances 1e-16 .. 1e-1, small multiples of the smallest subnormal"""
+    r = rng.random()
+    if r < 0.30: return 2.0 ** rng.uniform(-1074, -1022)                # subnormal, log-uniform
+    if r < 0.42: return DENORM_MIN * rng.choice([1, 1, 2, 3, rng.randint(1, 1000), 2 ** rng.randint(0, 51)])
+    if r < 0.54: return _ulps(rng, DBL_MIN) if rng.random() < 0.8 else DBL_MIN
+    if r < 0.64: return max(DENORM_MIN, DBL_MIN * (1 + rng.choice([-1, 1]) * 10 ** rng.uniform(-16, -0.05)))
+    if r < 0.70: return DBL_MIN * 2.0 ** rng.randint(-3, 3)
+    return 10 ** rng.uniform(-307, -12)                                 # normal, tiny: every decade
+
+
+def _small_a(rng):
+    """shapes for which P(x,a) ~ x^a / Gamma(a+1) is NOT small at tiny x: a geometric ladder below 1 (and a few ordinary ones)"""
+    r = rng.random()
+    if r < 0.45: return 10 ** rng.uniform(-8, -1)
+    if r < 0.60: return rng.choice([1e-8, 1e-6, 1e-4, 1e-3, 2.5e-3, 0.01, 0.02, 0.035, 0.04, 0.05, 0.1])
+    if r < 0.75: return 10 ** rng.uniform(-1, 0)
+    if r < 0.85: return rng.choice([0.25, 0.5, 1.0, 1.5, 3.0, 100.0])
+    return _rand_a(rng)
+
+
 def _rand_x(rng, a):
     top = a + 40 * math.sqrt(a) + 40
     r = rng.random()
+    if r < 0.03: return _tiny_x(rng)                                  # the lower end of the range, down to the subnormals
+    r = (r - 0.03) / 0.97
     if r < 0.30: x = _near(rng, a + 1.0)                              # the series / continued-fraction switch
     elif r < 0.45: x = max(0.0, a - 1 + rng.gauss(0, 1) * 3 * math.sqrt(a))   # around the peak
     elif r < 0.55: x = 10 ** rng.uniform(-12, 0) * min(1.0, a)        # small x
@@ -268,12 +309,120 @@ def _p_ladder(rng, a, n):
     return _ladder(rng, min(max(p0, P_LO), hi), P_LO, hi, n)
 
 
+def _inv_p(rng, a):
+    """a target for the inverses inside the property's range (1e-12, 1-1e-12); for a > 100 outside the region of K-C06-2"""
+    r = rng.random()
+    if r < 0.40: p = 10 ** rng.uniform(-11.9, -0.3)            # lower tail: for small a the solution (p Gamma(a+1))^(1/a) is tiny or underflows
+    elif r < 0.55: p = 1 - 10 ** rng.uniform(-11.9, -0.3)
+    elif r < 0.70: p = rng.choice(_QUANTILES)
+    else: p = rng.random()
+    return min(max(p, P_LO), P_HI if a <= 100.0 else 1 - 1e-6)
+
+
+def _short_path_call(rng, shapes):
+    """a legitimate call that every function of the family answers through one of its short paths (a return before or inside the main
+    loop, a guard that answers instead of exiting): the places where a call can leave something half done behind"""
+    H = hx; a = rng.choice(shapes); r = rng.random()
+    if r < 0.30:      # inverse whose initial guess (p/t)^(1/a) underflows: Halley's loop returns 0 at its first test
+        a = 10 ** rng.uniform(-8, -1.5); p = 10 ** rng.uniform(-11.9, -0.3)
+        return (f"invp {H(max(p, P_LO))} {H(a)}" if rng.random() < 0.6 else f"invq {H(min(1.0 - p, P_HI))} {H(a)}"), "inverse-underflow"
+    if r < 0.40: return f"{rng.choice(['invp', 'invq'])} {H(rng.choice([0.0, 1.0]))} {H(a)}", "inverse-end-point"     # p = 0, p = 1: answered without a search
+    if r < 0.52: return f"{rng.choice(['gammaq', 'gammap', 'upper', 'lower'])} {H(0.0)} {H(a)}", "x=0"
+    if r < 0.62:      # subnormal x
+        return f"{rng.choice(['gammaq', 'gammap', 'upper', 'lower'])} {H(_tiny_x(rng))} {H(_small_a(rng))}", "tiny-x"
+    if r < 0.72:      # a > 100 outside the quadrature window: answered 0 / 1 without integrating
+        b = rng.choice([101.0, 150.0, 1000.0, 10 ** rng.uniform(2.01, 4)]); sg = rng.choice([-1, 1])
+        x = max(b - 1 + sg * (10 + 10 ** rng.uniform(-6, 1)) * math.sqrt(b), 1e-3)
+        return f"{rng.choice(['gammaq', 'gammap'])} {H(min(x, b + 40 * math.sqrt(b) + 40))} {H(b)}", "outside-window"
+    if r < 0.90:      # Binomial_Coefficient with k > n: 0 by definition (PMF_Binomial(trials, p, x > trials) makes this call)
+        n = rng.choice([rng.randint(0, 400), rng.randint(171, 400), 170, 171, 172, 400]); return f"binom {n} {n + rng.choice([1, 1, 2, rng.randint(1, 300)])}", "n<k"
+    return f"fact {rng.choice([0, 1, 170, rng.randint(0, 170)])}", "table"
+
+
+def _ordinary_call(rng, a):
+    """one ordinary request at shape a"""
+    H = hx; op = rng.choice(["gammaq", "gammaq", "gammap", "gammap", "upper", "lower", "invp", "invq", "gammaln", "gamma"])
+    if op in ("gammaln", "gamma"): return f"{op} {H(min(a, 170.0) if rng.random() < 0.7 else min(a + 1.0, 171.0))}"
+    if op in ("invp", "invq"):
+        p = _inv_p(rng, a)
+        return f"{op} {H(p if op == 'invp' else min(max(1.0 - p, P_LO if a <= 100.0 else 1e-6), P_HI))} {H(a)}"
+    x = _rand_x(rng, a)
+    if a <= 20 and rng.random() < 0.3: x = rng.choice([0.3, 0.5, 1.0, 2.0, 2.5, 4.0, 6.5, a, a + 1.0, a + 2.0])
+    return f"{op} {H(x)} {H(a)}"
+
+
+def _shape(rng):
+    r = rng.random()
+    if r < 0.25: return rng.choice([0.5, 1.0, 1.5, 2.0, 3.0, 3.5, 4.0, 5.0, 10.0, 25.0, 50.0, 99.0, 100.0])
+    if r < 0.40: return 10 ** rng.uniform(-2, 0)
+    if r < 0.52: return 10 ** rng.uniform(-8, -1.5)
+    if r < 0.62: return _near(rng, rng.choice([1.0, 100.0]))
+    if r < 0.72: return rng.choice([101.0, 150.0, 1000.0, 10 ** rng.uniform(2, 4)])
+    return 10 ** rng.uniform(-1, 2)
+
+
+def _cross_shape_calls(rng, n):
+    """requests at SEVERAL different shapes a in one process, every function of the family, short-path calls in between:
+    whatever one call keeps for its own shape must not reach a call at another shape"""
+    shapes = [_shape(rng) for _ in range(rng.choice([2, 2, 3, 4]))]
+    if rng.random() < 0.5: shapes.append(shapes[0] * (1 + rng.choice([-1, 1]) * 10 ** rng.uniform(-15, -3)))     # two nearly equal shapes
+    calls = []; kinds = set()     # kinds: which short paths the history visits (for the record only)
+    pat = rng.random()
+    if pat < 0.45:        # short-path call(s) first, ordinary requests afterwards
+        for _ in range(rng.choice([1, 1, 2])):
+            c, k = _short_path_call(rng, shapes); calls.append(c); kinds.add(k)
+        while len(calls) < n: calls.append(_ordinary_call(rng, rng.choice(shapes)))
+    elif pat < 0.75:      # ordinary requests with short-path calls scattered in between
+        while len(calls) < n:
+            if rng.random() < 0.35:
+                c, k = _short_path_call(rng, shapes); calls.append(c); kinds.add(k)
+            else: calls.append(_ordinary_call(rng, rng.choice(shapes)))
+    else:                 # round robin over the shapes with one and the same request (tables over a)
+        op = rng.choice(["gammaq", "gammap", "upper", "lower", "invp", "invq"]); u = rng.random()
+        while len(calls) < n:
+            a = shapes[len(calls) % len(shapes)]
+            if op.startswith("inv"): calls.append(f"{op} {hx(min(max(u, 1e-6), 1 - 1e-6))} {hx(a)}")
+            else: calls.append(f"{op} {hx(min(u * (a + 1.0) * 2, a + 40 * math.sqrt(a) + 40))} {hx(a)}")
+            if rng.random() < 0.3: calls.append(_ordinary_call(rng, rng.choice(shapes)))
+    return calls
+
+
+def _binomial_rows_calls(rng, n):
+    """Binomial_Coefficient as PMF_Binomial / CDF_Binomial and Pascal-triangle builders call it: many k at one n (k beyond n included, answered 0),
+    a few rows interleaved, the neighbours of Pascal's rule, both sides of the Factorial / GammaLn switch at n = 170"""
+    def row_n(): return rng.choice([rng.randint(0, 400), rng.randint(171, 400), rng.randint(171, 400), 169, 170, 171, 172, 400, rng.randint(0, 30)])
+    rows = [row_n() for _ in range(rng.choice([1, 2, 2, 3]))]
+    if rng.random() < 0.4: rows.append(max(rows[0] - 1, 0))
+    def some_k(m): return rng.choice([0, 1, 2, m // 2, max(m - 1, 0), m, m, m + 1, m + 1, m + rng.randint(1, 60), 2 * m + 1, 401, rng.randint(0, max(m, 1)), rng.randint(0, max(m, 1))])
+    calls = []
+    pat = rng.random()
+    if pat < 0.4:         # row after row
+        for m in rows:
+            for _ in range(max(2, n // len(rows))): calls.append((m, some_k(m)))
+    elif pat < 0.7:       # rows interleaved
+        for _ in range(n): m = rng.choice(rows); calls.append((m, some_k(m)))
+    else:                 # Pascal's rule and symmetry around (n,k), preceded by a request beyond the row's end
+        m = max(rows[0], 1); k = rng.randint(1, m)
+        calls = [(m, m + rng.randint(1, 5))] if rng.random() < 0.6 else []
+        calls += [(m, k), (m - 1, k - 1), (m - 1, k), (m, m - k), (m, k)]
+        while len(calls) < n: mm = rng.choice(rows); calls.append((mm, some_k(mm)))
+    if rng.random() < 0.3: calls.insert(rng.randint(0, len(calls)), None)
+    return [f"binom {c[0]} {c[1]}" if c else f"fact {rng.randint(0, 170)}" for c in calls]
+
+
+
 def _seq_case(rng):
     n = rng.choice([2, 2, 3, 4, 6, 8, 12, 16])
     a = _seq_a(rng); top = a + 40 * math.sqrt(a) + 40
     fam = rng.random(); calls = []
     H = hx
-    if fam < 0.30:        # one inverse at fixed a, slowly varying / repeated / descending p (quantile tables, root searches)
+    if fam < 0.14:        # several shapes a in one process, short-path calls in between
+        tag = "cross-shape"; calls = _cross_shape_calls(rng, max(n, 3)); fam = -1.0
+    elif fam < 0.22:      # rows of Binomial_Coefficient
+        tag = "binomial-rows"; calls = _binomial_rows_calls(rng, max(n, 3)); fam = -1.0
+    else: fam = (fam - 0.22) / 0.78
+    if fam < 0.0: pass
+    elif fam < 0.30:      # one inverse at fixed a, slowly varying / repeated / descending p (quantile tables, root searches)
         op = rng.choice(["invp", "invp", "invq"]); tag = "inverse-ladder"
         for p in _p_ladder(rng, a, n):
             if op == "invq" and a > 100.0: p = max(p, 1e-6)     # q below 1e-6 at a > 100: the region of K-C06-2 again
@@ -369,6 +518,14 @@ def generate(rng, tier):
     for _ in range(40000 if big else 2200):
         a = _rand_a(rng); x = _rand_x(rng, a)
         cs.append(Case(f"pq {hx(x)} {hx(a)}", ("pq", "a>100" if a > 100 else "a<=100")))
+    # ---- the lower end of the x range: subnormal and tiny x (every binade down to the smallest subnormal, the normal/subnormal border),
+    #      paired with the shapes for which P(x,a) ~ x^a/Gamma(a+1) is not negligible there (a ladder of small a) and with ordinary ones
+    for _ in range(6000 if big else 320):
+        a = _small_a(rng); x = _tiny_x(rng)
+        cs.append(Case(f"pq {hx(x)} {hx(a)}", ("pq", "tiny-x", "a>100" if a > 100 else "a<=100")))
+    for a in ([1e-3, 0.01, 0.03, 0.25, 1.0, 3.0] if not big else [1e-8, 1e-6, 1e-4, 1e-3, 2.5e-3, 0.01, 0.02, 0.03, 0.035, 0.04, 0.05, 0.1, 0.25, 0.5, 1.0, 3.0, 100.0, 101.0]):
+        for x in (DENORM_MIN, 1e-320, 1e-310, math.nextafter(DBL_MIN, 0.0), DBL_MIN, math.nextafter(DBL_MIN, 1.0), 1e-300, 1e-200, 1e-100, 1e-30):
+            cs.append(Case(f"pq {hx(x)} {hx(a)}", ("pq", "tiny-x-grid")))
     # the two switch-overs on a grid of integer a (closed form available), both sides
     for a in ([1, 2, 3, 5, 10, 25, 50, 99, 100, 101, 150] if not big else list(range(1, 161))):
         for dx in (0.0, -1e-9, 1e-9, -0.5, 0.5):
@@ -387,7 +544,10 @@ def generate(rng, tier):
     # ---- monotonicity in x: increasing abscissae, scattered and in tight clusters across x = a+1
     for _ in range(4000 if big else 300):
         a = _rand_a(rng)
-        if rng.random() < 0.5:
+        r = rng.random()
+        if r < 0.12:      # from the smallest subnormal up through the normal/subnormal border to ordinary x, small shapes
+            a = _small_a(rng); xs = sorted(set([0.0, DENORM_MIN, math.nextafter(DBL_MIN, 0.0), DBL_MIN, math.nextafter(DBL_MIN, 1.0)] + [_tiny_x(rng) for _ in range(8)] + [10 ** rng.uniform(-12, 0)]))
+        elif r < 0.5:
             xs = sorted(_rand_x(rng, a) for _ in range(12))
         else:
             c = rng.choice([a + 1.0, max(a - 1.0, 1e-3), a + 1.0 + math.sqrt(a)]); xs = [c]
@@ -559,6 +719,15 @@ def _seq_predicates(c, io, v, ex):
                 out.append(("gammaq:upper-plus-lower", f"Upper + Lower = {q + lo!r}, Gamma = {g!r} at (x={float.fromhex(k[1])!r}, a={float.fromhex(k[2])!r}) across a history"))
         if k[0] == "fact" and int(k[1]) >= 1 and ("fact", str(int(k[1]) - 1)) in first and q != first[("fact", str(int(k[1]) - 1))] * int(k[1]):
             out.append(("factorial:recurrence", f"Factorial({k[1]}) = {q!r} is not {k[1]} * Factorial({int(k[1]) - 1}) across a history"))
+        if k[0] == "binom":
+            n_, k_ = int(k[1]), int(k[2])
+            if 0 <= k_ <= n_:
+                sym = ("binom", str(n_), str(n_ - k_)); up = ("binom", str(n_ - 1), str(k_ - 1)); dn = ("binom", str(n_ - 1), str(k_))
+                if sym in first and abs(Fraction(q) - Fraction(first[sym])) > Fraction(_binom_slack(n_, k_)[1] + _binom_slack(n_, n_ - k_)[1]):
+                    out.append(("binomial:symmetry", f"C({n_},{k_}) = {q!r} but C({n_},{n_ - k_}) = {first[sym]!r} across a history"))
+                if 1 <= k_ <= n_ - 1 and up in first and dn in first and \
+                        abs(Fraction(q) - Fraction(first[up]) - Fraction(first[dn])) > Fraction(_binom_slack(n_, k_)[1] + _binom_slack(n_ - 1, k_ - 1)[1] + _binom_slack(n_ - 1, k_)[1]):
+                    out.append(("binomial:pascal", f"C({n_},{k_}) = {q!r} but C({n_ - 1},{k_ - 1}) + C({n_ - 1},{k_}) = {first[up] + first[dn]!r} across a history"))
         if k[0] == "gamma":
             x = float.fromhex(k[1]); k1 = ("gamma", hx(x + 1.0))
             if k1 in first and math.isfinite(first[k1]):
